@@ -77,6 +77,13 @@ REFUSAL = [
     ('permuted head variables', 'forall V1 V2 (q(V1, V2) -> p(V1, V2)). forall V1 V2 (r(V1, V2) -> p(V2, V1)).', True),
     ('permuted head variables arity 3', 'forall X Y Z (q(X, Y, Z) -> p(X, Y, Z)). forall X Y Z (r(X, Y, Z) -> p(Y, Z, X)).', True),
     ('same variables different sort', 'forall X (q(X) -> p(X)). forall X$i (r(X$i) -> p(X$i)).', True),
+    # mismatching heads of one predicate that are not neighbours in the theory
+    ('mismatched heads, interleaved', 'forall X (X = 1 -> q(X)). forall X (q(X) -> p(X)). forall X (X = 2 -> s(X)). forall Y (s(Y) -> p(Y)).', True),
+    ('mismatched heads, constraint in between', 'forall X (q(X) -> p(X)). forall X (q(X) and X > 3 -> #false). forall Y (r(Y) -> p(Y)).', True),
+    ('mismatched heads, third of three, interleaved twice', 'forall X (q(X) -> p(X)). forall Z (q(Z) -> s(Z)). forall X (r(X) -> p(X)). '
+     'forall Z (r(Z) -> s(Z)). forall Y (t(Y) -> p(Y)).', True),
+    ('mismatched heads, other arity in between', 'forall X (q(X) -> p(X)). forall X Y (q(X) and q(Y) -> p(X, Y)). forall Y (r(Y) -> p(Y)).', True),
+    ('matching heads, interleaved ok', 'forall X (X = 1 -> q(X)). forall X (q(X) -> p(X)). forall X (X = 2 -> s(X)). forall X (s(X) -> p(X)).', False),
     ('identical heads three rules ok', 'forall X Y (q(X, Y) -> p(X, Y)). forall X Y (r(X, Y) -> p(X, Y)). forall X Y Z (s(X, Y, Z) -> p(X, Y)).', False),
 ]
 
